@@ -279,3 +279,72 @@ M('C10', 'nodelay-drops-delayed', S, "        cdef np.ndarray[np.double_t,ndim=2
   'fire', 'R10.3-no-delay-sum/VolumeSSASimulator')
 M('C10', 'silent-boxmuller-rewrite', R, "    return R*cos(theta)*std + mean", "    return mean + std*(R*cos(theta))", 'silent')
 M('C10', 'silent-gamma-rewrite', R, "            return d*v*theta", "            return theta*d*v", 'silent')
+
+# ------------------------------------------------------------------ C09
+M('C09', 'predicate-dt-ignores-rule-step', T,
+  "        if self.frequency_flag == -1 or self.frequency_flag == time or (rule_step and self.frequency_flag == -2):\n            self.rule_operation(state, params, time, dt)",
+  "        if self.frequency_flag == -1 or self.frequency_flag == time or self.frequency_flag == -2:\n            self.rule_operation(state, params, time, dt)", 'fire', 'R9.1-firing-predicate/execute_rule')
+M('C09', 'volume-predicate-differs', T,
+  "(rule_step and self.frequency_flag == -2):\n            self.rule_volume_operation(state, params, volume, time, dt)",
+  "(rule_step and self.frequency_flag == -3):\n            self.rule_volume_operation(state, params, volume, time, dt)", 'fire', 'R9.1-firing-predicate/execute_volume_rule')
+M('C09', 'dt-flag-value', T, '        elif rule_frequency == "dt":\n            self.frequency_flag = -2.0', '        elif rule_frequency == "dt":\n            self.frequency_flag = -1.0', 'fire', 'R9.1-frequency-table')
+M('C09', 'ode-not-scaled', T, "            state[self.dest_index] = state[self.dest_index] + self.rhs.evaluate(state,params,time)*dt",
+  "            state[self.dest_index] = state[self.dest_index] + self.rhs.evaluate(state,params,time)", 'fire', 'R9.2-operation/GeneralODERule.rule_operation')
+M('C09', 'assignment-volume-uses-plain-eval', T,
+  "            state[self.dest_index] = self.rhs.volume_evaluate(state,params,volume, time)\n\n    def initialize(self, dict fields, species2index, params2index, rule_frequency = \"repeat\"):",
+  "            state[self.dest_index] = self.rhs.evaluate(state,params, time)\n\n    def initialize(self, dict fields, species2index, params2index, rule_frequency = \"repeat\"):",
+  'fire', 'R9.2-operation/GeneralAssignmentRule.rule_volume_operation')
+M('C09', 'param-flag-swapped', T,
+  "            self.param_flag = 1\n            self.dest_index = params2index[dest_name]\n        else:\n            self.param_flag = 0\n            self.dest_index = species2index[dest_name]\n\n    def get_species_and_parameters(self, dict fields, dict species2index, dict params2index):\n        instring",
+  "            self.param_flag = 0\n            self.dest_index = params2index[dest_name]\n        else:\n            self.param_flag = 0\n            self.dest_index = species2index[dest_name]\n\n    def get_species_and_parameters(self, dict fields, dict species2index, dict params2index):\n        instring",
+  'fire', 'R9.2-destination/GeneralAssignmentRule')
+M('C09', 'rules-after-propensities', S,
+  "            sim.apply_repeated_rules(<double*> c_current_state.data,current_time, rule_step)\n            sim.compute_stochastic_propensities(<double*> c_current_state.data, <double*> c_propensity.data,current_time)",
+  "            sim.compute_stochastic_propensities(<double*> c_current_state.data, <double*> c_propensity.data,current_time)\n            sim.apply_repeated_rules(<double*> c_current_state.data,current_time, rule_step)", 'fire', 'R9.3-rules-first/SSASimulator')
+M('C09', 'rule-step-after-reaction', S,
+  "                proposed_time = current_time + cyrandom.exponential_rv(Lambda)\n                reaction_fired = 1\n                rule_step = 0\n\n\n            #Go",
+  "                proposed_time = current_time + cyrandom.exponential_rv(Lambda)\n                reaction_fired = 1\n                rule_step = 1\n\n\n            #Go", 'fire', 'R9.4-rule-step/SSASimulator')
+M('C09', 'rule-step-on-delivery', S,
+  "                current_time = next_queue_time\n                move_to_queued_time = 1\n                reaction_fired = 0\n                rule_step = 0",
+  "                current_time = next_queue_time\n                move_to_queued_time = 1\n                reaction_fired = 0\n                rule_step = 1", 'fire', 'R9.4-rule-step/DelaySSASimulator')
+M('C09', 'revert-volume-lambda0-rule-step', S,
+  "                proposed_time = c_timepoints[current_index]\n                reaction_fired = 0\n                rule_step = 0\n                move_to_queued_time = 0",
+  "                proposed_time = c_timepoints[current_index]\n                reaction_fired = 0\n                rule_step = 1\n                move_to_queued_time = 0", 'fire', 'R9.4-rule-step/VolumeSSASimulator')
+M('C09', 'rows-not-all-reruled', S, "                    for index in range(timepoints.shape[0]):\n                        sim.apply_repeated_rules(",
+  "                    for index in range(timepoints.shape[0]-1):\n                        sim.apply_repeated_rules(", 'fire', 'R9.5-deterministic/rows')
+M('C09', 'rhs-rules-after-derivative', S,
+  "    (<CSimInterface>global_simulator).apply_repeated_rules(<double*> state.data,t, rule_step)\n", "", 'fire', 'R9.5-deterministic/rhs_global')
+M('C09', 'revert-lineage-double-registration', L,
+  "		#Everything below is rebuilt from the *_list / rule lists on every initialization\n",
+  "		for rule_object in self.repeat_rules:\n			self.c_repeat_rules.push_back(<void*> rule_object)\n", 'fire', 'R9.6-registered-once/LineageModel')
+M('C09', 'model-no-clear', T, "        self.c_repeat_rules.clear()\n        for rule_object in self.repeat_rules:", "        for rule_object in self.repeat_rules:", 'fire', 'R9.6-registered-once')
+M('C09', 'revert-lineage-dt', L, "		self.interface.set_dt(delta_t)\n", "", 'fire', 'R9.7-grid-dt/LineageSSASimulator')
+M('C09', 'set-dt-dropped', S, "    else:\n        Interface.py_set_dt(dt)\n", "    else:\n        pass\n", 'fire', 'R9.7-grid-dt/py_simulate_model')
+M('C09', 'iface-skips-first-rule', S,
+  "        for rule_number in range(self.c_repeat_rules[0].size()):\n            (<Rule> (self.c_repeat_rules[0][rule_number])).execute_rule(",
+  "        for rule_number in range(1, self.c_repeat_rules[0].size()):\n            (<Rule> (self.c_repeat_rules[0][rule_number])).execute_rule(", 'fire', 'R9.3-interface-apply')
+M('C09', 'silent-predicate-reorder', T,
+  "        if self.frequency_flag == -1 or self.frequency_flag == time or (rule_step and self.frequency_flag == -2):\n            self.rule_operation(state, params, time, dt)",
+  "        if (self.frequency_flag == -2 and rule_step) or self.frequency_flag == time or self.frequency_flag == -1:\n            self.rule_operation(state, params, time, dt)", 'silent')
+M('C09', 'silent-ode-rewrite', T, "            state[self.dest_index] = state[self.dest_index] + self.rhs.evaluate(state,params,time)*dt",
+  "            state[self.dest_index] += dt*self.rhs.evaluate(state,params,time)", 'silent')
+
+# ------------------------------------------------------------------ C11
+M('C11', 'revert-lambda0-volume-step', S,
+  "                proposed_time = c_timepoints[current_index]\n                reaction_fired = 0\n                rule_step = 0\n                move_to_queued_time = 0",
+  "                proposed_time = c_timepoints[current_index]\n                reaction_fired = 0\n                rule_step = 0\n                move_to_queued_time = 1", 'fire', 'R11.2-pairing/VolumeSSASimulator')
+M('C11', 'queue-not-advanced', S, "                current_time = next_vol_time\n                next_vol_time += delta_t\n", "                current_time = next_vol_time\n", 'fire', 'R11.2-pairing/DelayVolumeSSASimulator')
+M('C11', 'volume-step-wrong-dt', S,
+  "                current_volume += v.get_volume_step(<double*>(c_current_state.data), <double*> sim.get_param_values(),\n                                                    current_time, current_volume, delta_t)",
+  "                current_volume += v.get_volume_step(<double*>(c_current_state.data), <double*> sim.get_param_values(),\n                                                    current_time, current_volume, current_time)", 'fire', 'R11.2-volume-writers/VolumeSSASimulator')
+M('C11', 'division-no-break', S, "                    cell_divided = True\n                    break\n\n            # if an actual reaction happened", "                    cell_divided = True\n\n            # if an actual reaction happened", 'fire', 'R11.4-division/VolumeSSASimulator')
+M('C11', 'growth-law', T, "        return ( exp(self.growth_rate*dt) - 1.0) * volume", "        return ( exp(self.growth_rate*dt)) * volume", 'fire', 'R11.5-growth-law/StochasticTimeThresholdVolume')
+M('C11', 'division-window', T, "        if self.division_time > time - dt and self.division_time <= time:", "        if self.division_time > time - dt and self.division_time <= time + dt:", 'fire', 'R11.5-division-window')
+M('C11', 'propensity-stale-volume', S,
+  "            sim.compute_stochastic_volume_propensities(<double*> (c_current_state.data), <double*> (c_propensity.data),\n                                            current_volume, current_time)\n            Lambda = cyrandom.array_sum(<double*> (c_propensity.data), num_reactions)\n\n            # Either we are going to move to the next queued time, or we move to the next reaction time.",
+  "            sim.compute_stochastic_volume_propensities(<double*> (c_current_state.data), <double*> (c_propensity.data),\n                                            v.get_volume(), current_time)\n            Lambda = cyrandom.array_sum(<double*> (c_propensity.data), num_reactions)\n\n            # Either we are going to move to the next queued time, or we move to the next reaction time.",
+  'fire', 'R11.2-pairing/VolumeSSASimulator')
+M('C11', 'hill-prop-d-over-v', T,
+  "        cdef double d = state[self.d_index]\n        cdef double rate = params[self.rate_index]\n        return d * rate * (X / K) ** n / (1 + (X/K)**n)",
+  "        cdef double d = state[self.d_index] / volume\n        cdef double rate = params[self.rate_index]\n        return d * rate * (X / K) ** n / (1 + (X/K)**n)", 'fire', 'R11.1-volume-formula/PositiveProportionalHillPropensity')
+M('C11', 'silent-growth-rewrite', T, "        return ( exp(gr*dt) - 1.0) * volume", "        return volume * exp(dt*gr) - volume", 'silent')
